@@ -6,9 +6,21 @@ Resources, by kind:
 * `conn`   — the single write connection (`SplitPool::write_priority|normal|low`; the admission
              protocol behind it is `Corro.WritePool`, here it is one exclusive lock);
 * `bookie` — the `Bookie` map lock (`CountedTokioRwLock<BookieInner>`), read or write mode;
-* `booked` — one `Booked` lock per actor (`CountedTokioRwLock<BookedVersions>`), read or write mode.
+* `booked` — one `Booked` lock per actor (`CountedTokioRwLock<BookedVersions>`), read or write mode;
+* `chan c` — the bounded mpsc channel number `c` of the agent (`bounded(cap, "label")`), seen as a lock:
+             **the consumer of the channel holds it for the whole of an iteration** (from the start of the
+             loop body that contains its `recv` to the end of that body: "the channel is full until the
+             consumer has finished the current item and receives again"), and **a blocking send is
+             `acq (chan c); rel (chan c)`** (it waits while the consumer is busy with an item).
+             Assumptions of this abstraction: `try_send` never blocks (it is not an operation of the
+             model); an unbounded channel never blocks a sender; a send from a spawned task is a program
+             of its own that holds nothing; a full channel whose consumer sits in `recv` is drained at
+             once (the consumer task is alive); several blocked senders wait for one another only
+             through the consumer (tokio's channel semaphore is FIFO).
 
-Lock order of the code: "connection first, then bookie, then booked" = strictly increasing `rank`.
+Lock order of the code: "connection first, then bookie, then booked" = strictly increasing rank; a
+channel must rank below everything its consumer acquires while it processes an item.  The ranks are a
+table (`Ranking`) emitted by the extractor and checked by Lean.
 A task is a program: a list of `acq`/`rel` operations (what `tools/extract_c20.py` reads off the
 writer functions: acquisitions in textual order, a release where the guard's scope ends).
 -/
@@ -16,12 +28,30 @@ namespace Corro.LockOrder
 
 inductive Kind
   | conn | bookie | booked
+  | chan (c : Nat)
 deriving DecidableEq, Repr, Inhabited
 
-def Kind.rank : Kind → Nat
-  | .conn => 0
-  | .bookie => 1
-  | .booked => 2
+/-- rank table; a kind that is not listed has rank 0 -/
+abbrev Ranking := List (Kind × Nat)
+
+def rankOf (rk : Ranking) (k : Kind) : Nat :=
+  match rk with
+  | [] => 0
+  | (k', n) :: rest => if k' = k then n else rankOf rest k
+
+/-- an upper bound of every rank of the table -/
+def maxRank : Ranking → Nat
+  | [] => 0
+  | (_, n) :: rest => max n (maxRank rest)
+
+/-- the order of the code comment: connection first, then bookie, then booked -/
+def Ranking.lockOrder (rk : Ranking) : Prop :=
+  rankOf rk .conn < rankOf rk .bookie ∧ rankOf rk .bookie < rankOf rk .booked
+
+instance (rk : Ranking) : Decidable rk.lockOrder := by unfold Ranking.lockOrder; exact inferInstance
+
+/-- the ranking when there are no channels -/
+def Ranking.base : Ranking := [(.conn, 0), (.bookie, 1), (.booked, 2)]
 
 inductive Mode
   | R | W
@@ -52,10 +82,11 @@ structure Named where
   and never holds two locks of the same kind),
 * releases only what it holds, and
 * holds nothing when it ends. -/
-def ordered : List Kind → Prog → Bool
+def ordered (rk : Ranking) : List Kind → Prog → Bool
   | held, [] => held.isEmpty
-  | held, .acq k _ _ :: rest => held.all (fun h => decide (h.rank < k.rank)) && ordered (k :: held) rest
-  | held, .rel k :: rest => held.contains k && ordered (held.erase k) rest
+  | held, .acq k _ _ :: rest =>
+    held.all (fun h => decide (rankOf rk h < rankOf rk k)) && ordered rk (k :: held) rest
+  | held, .rel k :: rest => held.contains k && ordered rk (held.erase k) rest
 
 structure Held where
   kind : Kind
